@@ -48,17 +48,16 @@ package pe
 // succeeded on - credentials and descriptor map together; with no matching wallet an error is reported
 // unless the definition requires no credentials (then the selection is empty, never partial).
 //@ func (*PresentationSubmissionBuilder).Build
-//@   prop C12
+//@   prop C12 C19
+//@   safety
 //@   requires len(b.wallets) == len(b.holders)
-//@   loop 1 invariant selectedDID == nil && len(b.wallets) == len(b.holders)
+//@   loop 1 invariant selectedDID == nil && len(b.wallets) == len(b.holders) && len(b.wallets) > 0
+//@   loop 1 invariant $i > 0 ==> len(loopErrs) > 0 && !isNilIface(loopErrs[len(loopErrs)-1])
 //@   loop 1 invariant !did(call (PresentationDefinition).Match #1) || !isNilIface(ret(call (PresentationDefinition).Match #1).2)
 //@   ensures [selection-is-what-matching-returned] isNilIface(result.2) && did(call (PresentationDefinition).Match #1) && isNilIface(ret(call (PresentationDefinition).Match #1).2) ==>
 //@        result.1.VerifiableCredentials == ret(call (PresentationDefinition).Match #1).0 && result.1.Mappings == ret(call (PresentationDefinition).Match #1).1
 //@        && result.0.DescriptorMap == ret(call (PresentationDefinition).Match #1).1 && result.0.DefinitionId == b.presentationDefinition.Id
 //@        && same(arg(call (PresentationDefinition).Match #1, 0), b.presentationDefinition)
-//@   ensures [dbg1] isNilIface(result.2) && !did(call (PresentationDefinition).Match #1) ==> did(call (PresentationDefinition).CredentialsRequired #1)
-//@   ensures [dbg2] isNilIface(result.2) && !did(call (PresentationDefinition).Match #1) ==> ret(call (PresentationDefinition).CredentialsRequired #1) == false
-//@   ensures [dbg3] isNilIface(result.2) && did(call (PresentationDefinition).Match #1) && !isNilIface(ret(call (PresentationDefinition).Match #1).2) ==> false
 //@   ensures [no-partial-selection] isNilIface(result.2) && !(did(call (PresentationDefinition).Match #1) && isNilIface(ret(call (PresentationDefinition).Match #1).2)) ==>
 //@        did(call (PresentationDefinition).CredentialsRequired #1) && ret(call (PresentationDefinition).CredentialsRequired #1) == false && len(result.1.VerifiableCredentials) == 0 && len(result.0.DescriptorMap) == 0
 
